@@ -20,6 +20,7 @@ CHECKS = {
  'C09': ('model_checking', 'tlc-algebra', 'Exactness and raise-iff of merge on name-aligned role-consistent inputs as TLC invariants over all pairs, and evaluated on real merge outputs; the identity, idempotence, neutral-element, sort/apply and fold laws are checked by TLC as equalities between two REAL results logged in one event.', '§5 C09'),
  'C10': ('model_checking', 'tlc-algebra', 'The metadata rules (optional only if all optional; common default else None; agreed annotation else none; kinds only restrict; order; outer defaults dropped only before a required inner positional; partial keywords) as TLC invariants over a universe extended with distinct default and annotation ids, and evaluated by TLC on real results computed with real default/annotation objects.', '§5 C10'),
  'C12': ('model_checking', 'tlc-modifiers', 'spec/Modifiers.tla transcribes _PokTranslator._prepare (advertised signature, ValueError conditions, kwopos table), the start=/end=/exceptions= name-set computations and the args.insert routing loop of __call__; TLC checks over all base functions x selections x calls that _prepare raises exactly on inadmissible selections, advertises the rewrite the property demands, and that routing + binding to the original function delivers exactly what binding to the advertised signature prescribes. The same space is run on the real decorators (functions and methods on instances, four retrieval routes, every shape of the complete call set with distinguishable values) and TLC (Trace_Modifiers) evaluates admissibility, rewrite, accepts-exactly, full delivery map and TypeError-on-rejection on each event.', '§5 C12'),
+ 'C13': ('model_checking', 'tlc-wrap', 'spec/WrapMachine.tla: stacks of wrapper functions around a base function; the reported signature is the fold of the Forwards model and the invariant ChainSound says every non-colliding call it accepts passes the whole chain of CPython bindings (Wrappers!ChainOutcome), checked by TLC over simulated stacks of depth <= 3. Real stacks built with wrappers.decorator / wrappers.wrapper_decorator (function, method, staticmethod) and wrappers.Combination are retrieved through four routes and really called on the call set next to the hand-written composition; TLC (Trace_Wrap) checks result-equality for every call, soundness of every reported signature, method binding, wrappers() listing, and (drift) that ChainOutcome predicted which calls run.', '§5 C13'),
  'C15': ('model_checking', 'tlc-algebra', 'ValidSig / upgraded / +depths of every model result as TLC invariants; on the real code every outcome over role-inconsistent inputs, foreign and duplicate names, n up to len+2 and all flags is classified by TLC (signature / IncompatibleSignatures / ValueError / other), and each sampled case is re-run with plain inspect inputs (same parameters + DeprecationWarning).', '§5 C15'),
  'C16': ('model_checking', 'tlc-algebra + tlc-retrieval', 'Algebra purity: TLC compares deep projections of all inputs before/after every real call and the identities of all provenance containers of inputs and result. Crash points: see level_note.', '§5 C16'),
  'C19': ('model_checking', 'tlc-algebra', 'TLC explores mask-in-partial-mode over universe x bindings with exactness against PartialAccepts as invariant; on the real code every partial object is really called on the complete call set and TLC checks the reported signature accepts exactly what the partial accepted, plus the structural and provenance claims.', '§5 C19'),
@@ -31,7 +32,6 @@ NOTES = {
 PENDING = {
  'C07': 'check under construction (Retrieval model + corpus)',
  'C11': 'check under construction (annotation-context model)',
- 'C13': 'check under construction (Wrappers delivery chains)',
  'C14': 'check under construction (ObjModel menagerie)',
  'C17': 'check under construction (concurrent Retrieval model + line-level scheduler)',
  'C18': 'check under construction (Modifiers history model)',
@@ -65,6 +65,8 @@ def main():
              'kind_free_text': 'TLA+ model of the AST walker (namespace machine + runtime ghost) whose behaviours are programs; every behaviour rendered to Python, analysed by the real walker, executed, and validated by TLC'},
             {'name': 'tlc-modifiers', 'path': 'spec/ModifiersCore.tla spec/Modifiers.tla spec/Trace_Modifiers.tla harness/modif.py harness/checks/c12.py', 'serves_properties': ['C12'],
              'kind_free_text': 'TLA+ transcription of the modifiers decorators (prepare / routing) with the C12 contract; real decorated functions called on the complete call set and validated by TLC'},
+            {'name': 'tlc-wrap', 'path': 'spec/Wrappers.tla spec/WrapMachine.tla spec/Trace_Wrap.tla harness/wrapstack.py harness/checks/c13.py', 'serves_properties': ['C13'],
+             'kind_free_text': 'TLA+ model of decorator stacks (chain of bindings, fold of forwards); real stacks and Combinations executed next to the hand-written composition and validated by TLC'},
             {'name': 'tlc-exec', 'path': 'spec/Wrappers.tla spec/Trace_Exec.tla harness/progs.py', 'serves_properties': ['C04', 'C05', 'C06'],
              'kind_free_text': 'execution semantics of forwarding wrappers in TLA+; generated programs really executed and their outcomes validated by TLC'},
             {'name': 'tlc-pybind', 'path': 'spec/PyBind.tla spec/PyBindMachine.tla spec/Trace_PyBind.tla harness/checks/c20.py', 'serves_properties': ['C20'],
